@@ -1004,4 +1004,267 @@ Section Obj.
     { apply in_or_app. left. destruct (slot_of_In n sl Hs) as [Hsl En]. subst n. unfold PN. apply in_map. exact Hsl. }
     exact (loop_default_present kw _ [] _ S' hc0 n sl HND Hinn (fun _ _ => eq_refl) Hn Hs Hd EL).
   Qed.
+
+  (* ---------------------------------------------------------------- nothing is stored that would be written as null / [] *)
+  Definition nonnull_values (s : list (ustring * pval)) : Prop :=
+    forall n v, alookup n s = Some v -> nullish (encode false v) = false.
+
+  Lemma nonnull_aset : forall n v s, nonnull_values s -> nullish (encode false v) = false -> nonnull_values (aset n v s).
+  Proof.
+    intros n v s Hs Hv m x Hm. destruct (ustr_eqb m n) eqn:E.
+    - apply ustr_eqb_eq in E. subst m. rewrite alookup_aset_same in Hm. inv Hm. exact Hv.
+    - rewrite alookup_aset_other in Hm; [eapply Hs; eauto |]. intros E2. subst. rewrite ustr_eqb_refl in E. discriminate.
+  Qed.
+
+  Lemma step_nonnull : forall K n s hc s' hc',
+    (forall j, alookup n K = Some j -> nullish j = false /\ plain_json j = true /\ n <> ext_key) ->
+    amem n s = false ->
+    step K n s hc = Ok (s', hc') -> nonnull_values s -> nonnull_values s'.
+  Proof.
+    intros K n s hc s' hc' HK Hf H Hs.
+    destruct (alookup n K) as [j |] eqn:Ek.
+    - destruct (HK j eq_refl) as [Hn [Hp Hne]].
+      pose proof (step_given_value _ _ _ _ _ _ _ Ek Hn H) as Hv.
+      destruct (step_shape _ _ _ _ _ _ H) as [E | [v E]]; subst s'; [exact Hs |].
+      apply nonnull_aset; auto. rewrite alookup_aset_same in Hv.
+      destruct (slot_of c n) as [sl |] eqn:Es.
+      + destruct Hv as [v0 [h [E1 E2]]]. inv E1.
+        pose proof (slot_of_ok _ _ Es) as Hok. unfold slot_ok in Hok.
+        apply andb_true_iff in Hok. destruct Hok as [Hok _]. apply andb_true_iff in Hok. destruct Hok as [Hok _].
+        apply andb_true_iff in Hok. destruct Hok as [Hkind _].
+        destruct (slot_of_In n sl Es) as [_ En].
+        assert (Hkp : kind_proved vr P (skind sl) = true).
+        { apply orb_true_iff in Hkind. destruct Hkind as [Hk | Hk]; auto. apply ustr_eqb_eq in Hk. congruence. }
+        eapply (clean_kind_not_nullish vr w rc rp ro P Hrc); eauto.
+      + inv Hv. cbn [encode]. exact Hn.
+    - (* not given: a default, or nothing *)
+      unfold step in H. rewrite assign_raw_spec in H. rewrite Ek in H.
+      destruct (slot_of c n) as [sl |] eqn:Es; [| inv_ok H; exact Hs].
+      destruct (slot_of_In n sl Es) as [_ En]. subst n. apply amem_alookup_none in Hf.
+      pose proof (slot_of_ok _ _ Es) as Hok. unfold slot_ok in Hok.
+      apply andb_true_iff in Hok. destruct Hok as [Hok _]. apply andb_true_iff in Hok. destruct Hok as [Hok _].
+      apply andb_true_iff in Hok. destruct Hok as [_ Hdef].
+      unfold bind in H.
+      destruct (CP c sl allow interop vrefs s) as [[a b] | |] eqn:Ec; try discriminate. inv_ok H. cbn [fst].
+      unfold check_property, default_value, bind in Ec. rewrite Hf in Ec.
+      destruct (sdef sl) eqn:Ed.
+      + cbn [fst snd] in Ec. unfold clean_present in Ec. rewrite Hf in Ec. inv_ok Ec. exact Hs.
+      + destruct (skind sl) eqn:Eknd; try discriminate. cbn [fst snd] in Ec.
+        unfold clean_present in Ec. rewrite alookup_aset_same in Ec. rewrite Eknd in Ec. cbn [clean_kind] in Ec.
+        rewrite jvalue_eqb_refl in Ec. unfold bind in Ec.
+        destruct (refs_ok c sl vrefs (PJ (JStr v))); try discriminate. inv_ok Ec. rewrite aset_aset.
+        apply nonnull_aset; auto.
+      + destruct (skind sl) eqn:Eknd; try discriminate. unfold bind in Ec.
+        destruct (ts_clean_now (vr_year_pad vr) p c0 (e_now ev)) as [[us txt] | |]; try discriminate.
+        cbn [fst snd] in Ec. unfold clean_present in Ec. rewrite alookup_aset_same in Ec. inv_ok Ec.
+        apply nonnull_aset; auto.
+      + destruct (skind sl) eqn:Eknd; try discriminate. cbn [fst snd] in Ec.
+        unfold clean_present in Ec. rewrite alookup_aset_same in Ec. rewrite Eknd in Ec.
+        cbn [clean_kind] in Ec. unfold bind in Ec.
+        destruct (validate_id vr (prefix ++ e_uuid4 ev) v (Some prefix) interop); try discriminate.
+        destruct (refs_ok c sl vrefs (PJ (JStr (prefix ++ e_uuid4 ev)))); try discriminate. inv_ok Ec. rewrite aset_aset.
+        apply nonnull_aset; auto.
+      + destruct (skind sl) eqn:Eknd; try discriminate. destruct j; try discriminate. cbn [fst snd] in Ec.
+        unfold clean_present in Ec. rewrite alookup_aset_same in Ec. rewrite Eknd in Ec. cbn [clean_kind clean_bool] in Ec.
+        unfold bind in Ec. destruct (refs_ok c sl vrefs (PJ (JBool b0))); try discriminate. inv_ok Ec. rewrite aset_aset.
+        apply nonnull_aset; auto.
+  Qed.
+
+  Lemma loop_nonnull : forall K l s hc S hcf,
+    NoDup l -> (forall n, In n l -> amem n s = false) ->
+    (forall n j, In n l -> alookup n K = Some j -> nullish j = false /\ plain_json j = true /\ n <> ext_key) ->
+    LOOP K [] [] l s hc = Ok (S, hcf) -> nonnull_values s -> nonnull_values S.
+  Proof.
+    induction l as [| n rest IH]; intros s hc S hcf ND Hf HK H Hs.
+    - cbn [assign_loop] in H. inv_ok H. exact Hs.
+    - rewrite loop_cons in H. unfold bind in H.
+      destruct (step K n s hc) as [[s1 h1] | |] eqn:Es; try discriminate. cbn [fst snd] in H.
+      inversion ND; subst.
+      eapply (IH s1 h1 S hcf); eauto.
+      + intros m Hm. unfold amem. rewrite (sos_frame _ _ _ m (step_shape _ _ _ _ _ _ Es)).
+        * apply Hf. right. exact Hm.
+        * intros E2. subst. contradiction.
+      + intros m j Hm. apply HK. right. exact Hm.
+      + eapply step_nonnull; eauto.
+        * intros j. apply HK. left. reflexivity.
+        * apply Hf. left. reflexivity.
+  Qed.
+
+  Lemma cg_written_nonnull : forall fuel kw S dfl hc,
+    plain_dict kw = true ->
+    CG fuel c allow interop kw [] vrefs = Ok (PObject (cid c) S dfl hc) ->
+    forall n j, alookup n (written S) = Some j -> nullish j = false.
+  Proof.
+    intros fuel kw S dfl hc Hp H n j Hj.
+    destruct (cg_unfold fuel kw _ Hp H) as [AC [S' [hc0 [hc' [HND [Hin [EL Eo]]]]]]]. inversion Eo; subst.
+    destruct (plain_dict_no_key kw Hp) as [_ Hext]. apply amem_alookup_none in Hext.
+    assert (Hnn : nonnull_values S').
+    { assert (HK : forall m j0, In m (PN ++ [] ++ usort AC) -> alookup m kw = Some j0 ->
+                   nullish j0 = false /\ plain_json j0 = true /\ m <> ext_key).
+      { intros m j0 _ Hj0. destruct (plain_dict_lookup kw m j0 Hp Hj0) as [A B]. repeat split; auto.
+        intros En. subst m. rewrite Hext in Hj0. discriminate. }
+      assert (H0 : nonnull_values (@nil (ustring * pval))) by (intros m v Hm; discriminate).
+      exact (loop_nonnull kw _ [] _ S' hc0 HND (fun _ _ => eq_refl) HK EL H0). }
+    rewrite alookup_written in Hj. destruct (alookup n S') as [v |] eqn:Ev; try discriminate.
+    destruct (mem_ustr n (defaulted_names c S')); try discriminate. inv Hj. eapply Hnn; eauto.
+  Qed.
+
+  Lemma cg_nodup : forall fuel kw S dfl hc,
+    plain_dict kw = true ->
+    CG fuel c allow interop kw [] vrefs = Ok (PObject (cid c) S dfl hc) -> NoDup (map fst S).
+  Proof.
+    intros fuel kw S dfl hc Hp H.
+    destruct (cg_unfold fuel kw _ Hp H) as [AC [S' [hc0 [hc' [HND [Hin [EL Eo]]]]]]]. inversion Eo; subst.
+    rewrite (loop_keys kw _ [] _ S' hc0 HND (fun _ _ => eq_refl) EL). cbn [map app]. apply NoDup_filter. exact HND.
+  Qed.
+
+  Lemma cg_written_members_nonnull : forall fuel kw S dfl hc,
+    plain_dict kw = true ->
+    CG fuel c allow interop kw [] vrefs = Ok (PObject (cid c) S dfl hc) ->
+    forall kv, In kv (written S) -> jvalue_eqb (snd kv) JNull = false.
+  Proof.
+    intros fuel kw S dfl hc Hp H [n j] Hin. cbn [snd].
+    assert (Hl : alookup n (written S) = Some j).
+    { apply alookup_NoDup; auto.
+      pose proof (akeys_written S) as Ek. unfold akeys in Ek. rewrite Ek.
+      apply NoDup_filter. eapply cg_nodup; eauto. }
+    pose proof (cg_written_nonnull fuel kw S dfl hc Hp H n j Hl) as Hn. destruct j; auto; discriminate.
+  Qed.
+
+  (* ---------------------------------------------------------------- every stored value is written as plain JSON *)
+  Definition plain_values (s : list (ustring * pval)) : Prop :=
+    forall n v, alookup n s = Some v -> plain_json (encode false v) = true.
+
+  Lemma plain_aset : forall n v s, plain_values s -> plain_json (encode false v) = true -> plain_values (aset n v s).
+  Proof.
+    intros n v s Hs Hv m x Hm. destruct (ustr_eqb m n) eqn:E.
+    - apply ustr_eqb_eq in E. subst m. rewrite alookup_aset_same in Hm. inv Hm. exact Hv.
+    - rewrite alookup_aset_other in Hm; [eapply Hs; eauto |]. intros E2. subst. rewrite ustr_eqb_refl in E. discriminate.
+  Qed.
+
+  Lemma step_plain : forall K n s hc s' hc',
+    (forall j, alookup n K = Some j -> nullish j = false /\ plain_json j = true /\ n <> ext_key) ->
+    amem n s = false ->
+    step K n s hc = Ok (s', hc') -> plain_values s -> plain_values s'.
+  Proof.
+    intros K n s hc s' hc' HK Hf H Hs.
+    destruct (alookup n K) as [j |] eqn:Ek.
+    - destruct (HK j eq_refl) as [Hn [Hp Hne]].
+      pose proof (step_given_value _ _ _ _ _ _ _ Ek Hn H) as Hv.
+      destruct (step_shape _ _ _ _ _ _ H) as [E | [v E]]; subst s'; [exact Hs |].
+      apply plain_aset; auto. rewrite alookup_aset_same in Hv.
+      destruct (slot_of c n) as [sl |] eqn:Es.
+      + destruct Hv as [v0 [h [E1 E2]]]. inv E1.
+        pose proof (slot_of_ok _ _ Es) as Hok. unfold slot_ok in Hok.
+        apply andb_true_iff in Hok. destruct Hok as [Hok _]. apply andb_true_iff in Hok. destruct Hok as [Hok _].
+        apply andb_true_iff in Hok. destruct Hok as [Hkind _].
+        destruct (slot_of_In n sl Es) as [_ En].
+        assert (Hkp : kind_proved vr P (skind sl) = true).
+        { apply orb_true_iff in Hkind. destruct Hkind as [Hk | Hk]; auto. apply ustr_eqb_eq in Hk. congruence. }
+        eapply (clean_kind_plain vr w rc rp ro P Hrc); eauto.
+      + inv Hv. cbn [encode]. exact Hp.
+    - unfold step in H. rewrite assign_raw_spec in H. rewrite Ek in H.
+      destruct (slot_of c n) as [sl |] eqn:Es; [| inv_ok H; exact Hs].
+      destruct (slot_of_In n sl Es) as [_ En]. subst n. apply amem_alookup_none in Hf.
+      pose proof (slot_of_ok _ _ Es) as Hok. unfold slot_ok in Hok.
+      apply andb_true_iff in Hok. destruct Hok as [Hok _]. apply andb_true_iff in Hok. destruct Hok as [Hok _].
+      apply andb_true_iff in Hok. destruct Hok as [_ Hdef].
+      unfold bind in H.
+      destruct (CP c sl allow interop vrefs s) as [[a b] | |] eqn:Ec; try discriminate. inv_ok H. cbn [fst].
+      unfold check_property, default_value, bind in Ec. rewrite Hf in Ec.
+      destruct (sdef sl) eqn:Ed.
+      + cbn [fst snd] in Ec. unfold clean_present in Ec. rewrite Hf in Ec. inv_ok Ec. exact Hs.
+      + destruct (skind sl) eqn:Eknd; try discriminate. cbn [fst snd] in Ec.
+        unfold clean_present in Ec. rewrite alookup_aset_same in Ec. rewrite Eknd in Ec. cbn [clean_kind] in Ec.
+        rewrite jvalue_eqb_refl in Ec. unfold bind in Ec.
+        destruct (refs_ok c sl vrefs (PJ (JStr v))); try discriminate. inv_ok Ec. rewrite aset_aset.
+        apply plain_aset; auto.
+      + destruct (skind sl) eqn:Eknd; try discriminate. unfold bind in Ec.
+        destruct (ts_clean_now (vr_year_pad vr) p c0 (e_now ev)) as [[us txt] | |]; try discriminate.
+        cbn [fst snd] in Ec. unfold clean_present in Ec. rewrite alookup_aset_same in Ec. inv_ok Ec.
+        apply plain_aset; auto.
+      + destruct (skind sl) eqn:Eknd; try discriminate. cbn [fst snd] in Ec.
+        unfold clean_present in Ec. rewrite alookup_aset_same in Ec. rewrite Eknd in Ec.
+        cbn [clean_kind] in Ec. unfold bind in Ec.
+        destruct (validate_id vr (prefix ++ e_uuid4 ev) v (Some prefix) interop); try discriminate.
+        destruct (refs_ok c sl vrefs (PJ (JStr (prefix ++ e_uuid4 ev)))); try discriminate. inv_ok Ec. rewrite aset_aset.
+        apply plain_aset; auto.
+      + destruct (skind sl) eqn:Eknd; try discriminate. destruct j; try discriminate. cbn [fst snd] in Ec.
+        unfold clean_present in Ec. rewrite alookup_aset_same in Ec. rewrite Eknd in Ec. cbn [clean_kind clean_bool] in Ec.
+        unfold bind in Ec. destruct (refs_ok c sl vrefs (PJ (JBool b0))); try discriminate. inv_ok Ec. rewrite aset_aset.
+        apply plain_aset; auto.
+  Qed.
+
+  Lemma loop_plain : forall K l s hc S hcf,
+    NoDup l -> (forall n, In n l -> amem n s = false) ->
+    (forall n j, In n l -> alookup n K = Some j -> nullish j = false /\ plain_json j = true /\ n <> ext_key) ->
+    LOOP K [] [] l s hc = Ok (S, hcf) -> plain_values s -> plain_values S.
+  Proof.
+    induction l as [| n rest IH]; intros s hc S hcf ND Hf HK H Hs.
+    - cbn [assign_loop] in H. inv_ok H. exact Hs.
+    - rewrite loop_cons in H. unfold bind in H.
+      destruct (step K n s hc) as [[s1 h1] | |] eqn:Es; try discriminate. cbn [fst snd] in H.
+      inversion ND; subst.
+      eapply (IH s1 h1 S hcf); eauto.
+      + intros m Hm. unfold amem. rewrite (sos_frame _ _ _ m (step_shape _ _ _ _ _ _ Es)).
+        * apply Hf. right. exact Hm.
+        * intros E2. subst. contradiction.
+      + intros m j Hm. apply HK. right. exact Hm.
+      + eapply step_plain; eauto.
+        * intros j. apply HK. left. reflexivity.
+        * apply Hf. left. reflexivity.
+  Qed.
+
+  (* the members an object is written with are plain JSON again *)
+  Lemma cg_written_plain : forall fuel kw o,
+    plain_dict kw = true ->
+    CG fuel c allow interop kw [] vrefs = Ok o ->
+    exists S hc, o = PObject (cid c) S (defaulted_names c S) hc /\ plain_dict (written S) = true.
+  Proof.
+    intros fuel kw o Hp H.
+    destruct (cg_idem fuel kw o Hp H) as [S [hc [Eo [Hre [Hkeys Hgiven]]]]]. subst o. exists S, hc. split; auto.
+    destruct (cg_unfold fuel kw _ Hp H) as [AC [S' [hc0 [hc' [HND [Hin [EL Eo]]]]]]]. inversion Eo; subst S' hc'. clear Eo.
+    destruct (plain_dict_no_key kw Hp) as [Hcp Hext].
+    assert (HK : forall m j0, In m (PN ++ [] ++ usort AC) -> alookup m kw = Some j0 ->
+                 nullish j0 = false /\ plain_json j0 = true /\ m <> ext_key).
+    { intros m j0 _ Hj0. destruct (plain_dict_lookup kw m j0 Hp Hj0) as [A B]. repeat split; auto.
+      intros En. subst m. apply amem_alookup_none in Hext. rewrite Hext in Hj0. discriminate. }
+    assert (Hpl : plain_values S).
+    { assert (H0 : plain_values (@nil (ustring * pval))) by (intros m v Hm; discriminate).
+      exact (loop_plain kw _ [] _ S hc0 HND (fun _ _ => eq_refl) HK EL H0). }
+    (* no custom_properties / extensions member: the re-run above went through cg_plain on (written S) *)
+    assert (Hnokey : forall r, In r [cp_key; ext_key] -> amem r (written S) = false).
+    { intros r Hr. destruct (amem r (written S)) eqn:Ea; auto. exfalso.
+      assert (HrS : amem r S = true).
+      { unfold amem in *. rewrite alookup_written in Ea. destruct (alookup r S); auto. }
+      destruct (Hkeys r Ea) as [Hpn | Hkw].
+      - unfold PN in Hpn. apply in_map_iff in Hpn. destruct Hpn as [sl [En Hsl]].
+        rewrite forallb_forall in Hslots. pose proof (Hslots sl Hsl) as Hok. unfold slot_ok in Hok.
+        apply andb_true_iff in Hok. destruct Hok as [Hok Hx]. apply andb_true_iff in Hok. destruct Hok as [_ Hr0].
+        apply negb_true_iff in Hr0.
+        destruct Hr as [Hr | [Hr | []]]; subst r.
+        + rewrite En in Hr0. unfold cp_key, reserved_names in Hr0. cbn [map mem_ustr] in Hr0. rewrite ustr_eqb_refl in Hr0. discriminate.
+        + rewrite En in Hx. rewrite ustr_eqb_refl in Hx. cbn [negb orb] in Hx.
+          assert (amem ext_key S = false).
+          { eapply (loop_slot_absent kw (PN ++ ([] ++ usort AC)) [] (flag0 AC) S hc0 ext_key sl HND);
+              [reflexivity | rewrite <- En; apply slot_of_unique; exact Hsl | destruct (sdef sl); try discriminate; reflexivity
+              | apply amem_alookup_none; exact Hext | exact EL]. }
+          congruence.
+      - destruct Hr as [Hr | [Hr | []]]; subst r; congruence. }
+    unfold plain_dict. apply forallb_forall. intros [n j] Hinm.
+    assert (Hl : alookup n (written S) = Some j).
+    { apply alookup_NoDup; auto. pose proof (akeys_written S) as Ek. unfold akeys in Ek. rewrite Ek.
+      apply NoDup_filter. eapply cg_nodup; eauto. }
+    unfold plain_member. cbn [fst snd].
+    assert (N1 : ustr_eqb n cp_key = false).
+    { destruct (ustr_eqb n cp_key) eqn:E; auto. apply ustr_eqb_eq in E. subst n.
+      pose proof (Hnokey cp_key (or_introl eq_refl)) as Hx. unfold amem in Hx. rewrite Hl in Hx. discriminate. }
+    assert (N2 : ustr_eqb n ext_key = false).
+    { destruct (ustr_eqb n ext_key) eqn:E; auto. apply ustr_eqb_eq in E. subst n.
+      pose proof (Hnokey ext_key (or_intror (or_introl eq_refl))) as Hx. unfold amem in Hx. rewrite Hl in Hx. discriminate. }
+    rewrite N1, N2. cbn [negb andb].
+    rewrite (cg_written_nonnull fuel kw S _ hc Hp H n j Hl). cbn [negb andb].
+    rewrite alookup_written in Hl. destruct (alookup n S) as [v |] eqn:Ev; try discriminate.
+    destruct (mem_ustr n (defaulted_names c S)); try discriminate. inv Hl. eapply Hpl; eauto.
+  Qed.
 End Obj.
